@@ -68,10 +68,10 @@ func Implies(a, b bool) bool { return !a || b }
 
 // RetInt / RetErr / RetBool / RetStr: result idx of the last call on this path
 // whose name contains s.
-func RetInt(s string, idx int) int     { return 0 }
-func RetErr(s string, idx int) error   { return nil }
-func RetBool(s string, idx int) bool   { return false }
-func RetStr(s string, idx int) string  { return "" }
+func RetInt(s string, idx int) int    { return 0 }
+func RetErr(s string, idx int) error  { return nil }
+func RetBool(s string, idx int) bool  { return false }
+func RetStr(s string, idx int) string { return "" }
 
 // NetDelta(&obj.field): net change applied to a lock-guarded integer field
 // inside the locked regions executed on this path (each region contributes
